@@ -1010,7 +1010,54 @@ func ruleSortInterfaceCoherent(p *Program, r *Report) {
 						})
 					}
 					walk(f, 0)
+					fieldNameOf := func(v ssa.Value) string {
+						switch x := v.(type) {
+						case *ssa.UnOp:
+							if fa, ok := x.X.(*ssa.FieldAddr); ok {
+								return structOf(fa.X.Type()).Field(fa.Field).Name()
+							}
+						case *ssa.Field:
+							return structOf(x.X.Type()).Field(x.Field).Name()
+						}
+						return ""
+					}
 					for _, g := range body {
+						// a slice field handed to a package-local helper that indexes (or stores into) its parameter:
+						// swapValues(o.keys, i, j)
+						ForEachInstr(g, func(ins ssa.Instruction) {
+							c, ok := ins.(*ssa.Call)
+							if !ok {
+								return
+							}
+							k := c.Call.StaticCallee()
+							if k == nil || !InRepo(k) || k.Blocks == nil {
+								return
+							}
+							for ai, a := range c.Call.Args {
+								name := fieldNameOf(a)
+								if name == "" || ai >= len(k.Params) {
+									continue
+								}
+								if _, isSlice := a.Type().Underlying().(*types.Slice); !isSlice {
+									continue
+								}
+								ForEachInstr(k, func(i2 ssa.Instruction) {
+									ia, ok := i2.(*ssa.IndexAddr)
+									if !ok || ia.X != ssa.Value(k.Params[ai]) {
+										return
+									}
+									if !writes {
+										out[name] = true
+										return
+									}
+									for _, ref := range *ia.Referrers() {
+										if st, ok := ref.(*ssa.Store); ok && st.Addr == ssa.Value(ia) {
+											out[name] = true
+										}
+									}
+								})
+							}
+						})
 						ForEachInstr(g, func(ins ssa.Instruction) {
 							ia, ok := ins.(*ssa.IndexAddr)
 							if !ok {
